@@ -104,10 +104,78 @@ def sweep(tier, seed):
                               'expected': 't is not DONE after the second run; u carries the results of the second run'})
         finally:
             shutil.rmtree(root, ignore_errors=True)
+    # write / crash-during-REwrite / read: the real write_env runs in a child process that dies after exactly k bytes of the new entry reached the file
+    # (pickle.dump is replaced in the child by "write the first k bytes of the dump, flush, die"; the file is opened by the real Env.to_file)
+    for later in (TaskStatus.FAILED, TaskStatus.DONE):
+        root = tempfile.mkdtemp(prefix='c14k_', dir='/var/tmp')
+        try:
+            env1 = _prepare(root, {'t': {'status': TaskStatus.DONE, 'result': 'old result, rather long ' * 4}})
+            write_env(env1, filename=fname, fmt='pickle')
+            old_bytes = open(os.path.join(root, 't', fname), 'rb').read()
+            env2 = _prepare(root, {'t': {'status': later, 'result': 'new'}})
+            new_len = _dump_len(env2, 't')
+            for k in sorted(set(list(range(0, min(new_len, 40))) + list(range(0, new_len + 1, 7)) + [new_len])):
+                n += 1
+                with open(os.path.join(root, 't', fname), 'wb') as f:
+                    f.write(old_bytes)
+                _killed_write(env2, fname, k)
+                try:
+                    got = read_env(root=root, names=['t'], filename=fname, fmt='pickle')
+                    gd = {kk: dict(v) for kk, v in got.items()}
+                    problem = None
+                    if 't' in gd and gd['t'].get('result') != 'new':
+                        problem = f'read_env reports t as DONE with the entry of the EARLIER run (result {str(gd["t"].get("result"))[:20]!r}...)'
+                    elif 't' in gd and later != TaskStatus.DONE:
+                        problem = 'read_env reports t as DONE although the run being written recorded it as FAILED'
+                    elif 't' in gd and k < new_len:
+                        problem = 'read_env returns an entry from a partially written file'
+                except BaseException as e:      # noqa
+                    problem = f'read_env raised {type(e).__name__}'
+                if problem:
+                    fails.append({'input': {'history': ['write t=DONE (old)', f'write t={later.name} killed after {k} of {new_len} bytes', 'read']}, 'observed': problem,
+                                  'expected': 'a task whose file was being re-written when the job died is treated as not done'})
+                    break
+        finally:
+            shutil.rmtree(root, ignore_errors=True)
     return {'name': 'persisted-environments-native', 'evaluations': n, 'distinct': n, 'failures': fails[:8], 'exhaustive': True,
             'bound': '6 sample environments (all statuses, nested / binary payloads, with and without output directories); write_env then read_env: intact, '
-                     'every byte prefix of every written file (one damaged file at a time), empty, missing, garbage and foreign pickles; two-run histories DONE -> FAILED / SKIPPED / WAITING',
+                     'every byte prefix of every written file (one damaged file at a time), empty, missing, garbage and foreign pickles; two-run histories DONE -> FAILED / SKIPPED / WAITING; re-writing an existing DONE file with a FAILED / DONE entry in a child process killed after k bytes (k = 0..39, every 7th, all)',
             'samples': [{'env': 'one-done', 'damage': 'solo truncated at byte 17'}]}
+
+
+def _dump_len(env, name):
+    import io
+    buf = io.BytesIO()
+    pickle.dump(env.__class__({name: env[name]}), buf) if False else None
+    # the payload Env.to_file writes for one task: measured by running the real to_file into a scratch file
+    import tempfile as _tf
+    d = _tf.mkdtemp(prefix='c14len_', dir='/var/tmp')
+    try:
+        path = os.path.join(d, 'probe.env')
+        env.to_file(path, task_name=name, fmt='pickle')
+        return os.path.getsize(path)
+    finally:
+        shutil.rmtree(d, ignore_errors=True)
+
+
+def _killed_write(env, fname, k):
+    '''run the real write_env in a forked child in which pickle.dump writes only k bytes and the process dies at once (no flush of anything else)'''
+    pid = os.fork()
+    if pid == 0:
+        try:
+            real_dumps = pickle.dumps
+
+            def dying_dump(obj, f, *a, **kw):
+                data = real_dumps(obj, *a, **kw)
+                f.write(data[:k])
+                f.flush()
+                os._exit(0)
+            pickle.dump = dying_dump
+            from valjean.cambronne.common import write_env
+            write_env(env, filename=fname, fmt='pickle')
+        finally:
+            os._exit(0)
+    os.waitpid(pid, 0)
 
 
 def _read_and_judge(read_env, root, names, fname, env, damaged, label, damage, TaskStatus):
